@@ -595,3 +595,8 @@ func ens_af_limit(c *Conn, old_c Conn, ret0 int, ret1 error) bool {
 //@ assigns (*Conn).advanceFrame c.readRemaining, c.readFinal, c.readLength, c.readDecompress, c.readMaskPos, c.readMaskKey, c.writeErr, c.writeErrMu, ghost.rd(c.br), ghost.ioerr, ghost.lock(c.mu), ghost.wr(c.conn)
 
 var _ = time.Second
+
+// ---------- C07: the frame reader never panics on peer bytes ----------
+//@ safe (*Conn).advanceFrame C07
+//@ safe (*Conn).handleProtocolError C07
+//@ safe isValidReceivedCloseCode C07
